@@ -149,7 +149,7 @@ func runMeasure(e *simcore.Env, tp *simcore.Tape) {
 			desc := fmt.Sprintf("range[%d,%d] limit=%d", a, b, req.Limit)
 			isOrdered := false
 			if plain && tp.Bool(1, 2) {
-				if c := wl.GenCriteria(tp, s.Tags, rowTags, tp.Range(0, 2), nil); c != nil {
+				if c := wl.GenCriteria(tp, s.Tags, rowTags, tp.Range(0, 2), func(t wl.TagSpec) bool { return !t.Entity }); c != nil {
 					req.Criteria = c.Proto()
 					desc += " where " + c.String()
 				}
@@ -374,7 +374,7 @@ func runStream(e *simcore.Env, tp *simcore.Tape) {
 			req := s.QueryRequest(a, b, s.GenProjection(tp), uint32([]int{1000000, 1, 5, 50}[tp.Choose(4)]))
 			desc := fmt.Sprintf("range[%d,%d] limit=%d", a, b, req.Limit)
 			if plain && tp.Bool(1, 2) {
-				if c := wl.GenCriteria(tp, s.Tags, rowTags, tp.Range(0, 2), nil); c != nil {
+				if c := wl.GenCriteria(tp, s.Tags, rowTags, tp.Range(0, 2), func(t wl.TagSpec) bool { return !t.Entity }); c != nil {
 					req.Criteria = c.Proto()
 					desc += " where " + c.String()
 				}
